@@ -20,7 +20,8 @@ CLAIMED = {
         technique="Lean 4 proof (potential function over request log + remaining reconnect signals; structural termination) + differential correspondence",
         text=("C12_file_bound / C12_per_url_bound / C12_ten / C12_only_own_urls / C12_transient_absorbed proved for all scripts; "
               "all model functions are total by structural recursion; request logs of the real downloader are compared "
-              "with the model's and checked against the bound under two schedules."),
+              "with the model's and checked against the bound under two schedules; per-task accounting shows that a file is only given up "
+              "after ten tries of its own on each of its URLs, also when siblings share a by-hash URL."),
         note="Release-stage round bound is in C11; interleaving independence beyond two schedules is C15. Trusted: Lean kernel, model, harness.",
         design="6/C12"),
 }
@@ -30,8 +31,9 @@ CLAIMED.update({
         technique="Lean 4 proof chain (control logic, clean stage => all obtained, obtained => declared size) + end-to-end fsck monitor and control correspondence on the real APTMirror.run()",
         text=("C01_exit0_all_stages_clean, C01_clean_stage_all_obtained and C01_clean_stage_sizes are proved for all stage outcomes, "
               "queues, oracles and prior trees; the real tool is run end-to-end against a simulated upstream under fault plans, "
-              "version switches and local OSErrors, its stage sequence is compared with Model/Control and an independent fsck is "
-              "evaluated whenever it exits 0."),
+              "version switches, variant downgrades over two runs and local OSErrors - standard and flat repositories -, its stage sequence "
+              "is compared with Model/Control, every run that ends without error is replayed in the whole-run model (Model/Mirror), and an "
+              "independent fsck is evaluated whenever it exits 0."),
         note=("Which files are queued (Release selection, Packages/Sources parsing) is C10/C09; the model-level chain stops at 'every "
               "queued required file obtained with declared size', the end-to-end conclusion is checked by the fsck monitor. "
               "Trusted: Lean kernel, model, harness (fsck is an independent re-implementation)."),
@@ -41,7 +43,8 @@ CLAIMED.update({
         text=("C02_repo_result_iff / C02_exit_iff / C02_failed_no_publish / C02_repos_independent / C02_download_keeps_names / "
               "C02_optional_never_fails proved for all stage outcomes; real runs over (V1, V2) histories with per-repository "
               "fault classes check exit status, byte-identity of the failed repository's dists and superset of files, and that the "
-              "healthy repository is published."),
+              "healthy repository is published. C02_failed_run_keeps_tree (whole-run model): however far the pool stage of a failing run "
+              "gets, the live metadata is unchanged, no file name disappears and no complete file is touched."),
         note="Skips worlds where a codename selects no index (S3). Trusted: Lean kernel, model, harness.",
         design="6/C02"),
     "C03": dict(
@@ -49,7 +52,9 @@ CLAIMED.update({
         text=("C03_publish_prefix (every prefix of the operation list shows old, new, or absent-with-old-intact), C03_publish_final, "
               "C03_no_inplace_write, C03_download_no_inplace, C03_pool_untouched proved for all staged file sets and prior trees; "
               "the model's operation list is compared op-for-op with the audit-hook trace of the real move_metadata, and the live "
-              "tree is hashed at every mutation of real update runs."),
+              "tree is hashed at every mutation of real update runs. C03_order and C03_delete_after_live prove the ordering clauses on the "
+              "whole-run model: at every prefix of a run either the old metadata is live and no complete file has been touched, or the new "
+              "metadata is live and every pool file it references is in place; a removal is always preceded by the swap."),
         note="rename(2) atomicity is the model's step rule; standard repositories. Trusted: Lean kernel, model, harness.",
         design="6/C03"),
 })
@@ -124,7 +129,9 @@ CLAIMED.update({
               "C04_queued_inside, C04_kept_survives, C04_wipe_decision, C04_empty_tree_allowed, C04_kept_not_queued, C04_symlink_kept are "
               "proved; the recursive scan model, its execution and the property's survivor predicate are compared with the real "
               "PathCleaner.clean() on random trees with hostile names/symlinks/keep sets/ratios and on all trees with <= 3 (thorough: 4) "
-              "nodes; generated scripts are run by /bin/sh and bash and must produce the autoclean tree."),
+              "nodes; generated scripts are run by /bin/sh and bash and must produce the autoclean tree; end to end, twin worlds (automatic cleaning / "
+              "clean scripts executed after every run) over histories with rollbacks, a grid of wipe ratios and a permanently failing repository "
+              "must stay equal (found and fixed F-C04c)."),
         note="C04_exec_exact: executing the two queues in order never meets a non-empty directory and leaves exactly the specified survivors (trees with distinct sibling names). Float vs exact ratio comparison assumed equal below 2^50 bytes. Trusted: Lean kernel, model, harness, real sh/bash for script execution.",
         design="6/C04"),
 })
@@ -154,13 +161,13 @@ CLAIMED.update({
 
 CLAIMED.update({
     "C19": dict(
-        technique="Lean 4 proof (potential-function bound for every timed grant sequence of the leaky bucket; exact slicing of chunks; decision logic of the slow-rate check) + contract check of the real aiolimiter grants, windowed byte sums and abort points under a virtual clock",
+        technique="Lean 4 proof (potential-function bound for every timed grant sequence of the leaky bucket; earliest admissible grant time is first and a delayed request meets a full bucket, hence throughput within one tick's worth of the configured rate; exact slicing of chunks; decision logic of the slow-rate check) + contract check of the real aiolimiter grants, windowed byte sums and abort points under a virtual clock",
         text=("C19_bucket_bound (amounts granted in any interval of length T sum to at most capacity + r*T, for any number of interleaved "
               "transfers), C19_charge_exact, C19_slow_iff, C19_not_aborted and the decided counterexample for the original charging are "
               "proved; real download_file + real AsyncLimiter run under a virtual clock: grants must satisfy the bucket contract, every "
               "window of accept events must obey limit*(T+60)+chunk, every byte must be charged; the real SlowRateProtector (virtual "
               "datetime) must abort exactly at the chunk the model names."),
-        note="PARTIAL: 'not throttled below the limit' is checked on single transfers only (aiolimiter's wake-up policy is third-party). Known finding F-C19b (one chunk of slack per concurrent transfer with oversize chunks). Trusted: Lean kernel, model, harness virtual clock.",
+        note="C19_earliest_is_first / C19_delayed_only_when_full / C19_not_throttled prove 'not throttled below the limit' at the level of the limiter's contract. PARTIAL: that aiolimiter wakes its waiters as promptly as that is observed on single transfers only (third-party wake-up policy). Known finding F-C19b (one chunk of slack per concurrent transfer with oversize chunks). Trusted: Lean kernel, model, harness virtual clock.",
         design="6/C19"),
 })
 
@@ -178,35 +185,45 @@ CLAIMED.update({
 
 CLAIMED.update({
     "C09": dict(
-        technique="Lean 4 proof: whole-index refinement for Packages (line machine = stanza-level specification, induction over stanzas, fields and continuation lines) and the building blocks of the two line machines (exact field-name recognition, stanza flush, final blank line, filter and ignore semantics) + three-way differential check: real parsers / Lean line-machine model / independent stanza-based reference parser, through all compressions and the mmap path",
+        technique="Lean 4 proof: whole-index refinement for Packages and for Sources (line machine = stanza-level specification over an abstract syntax of stanzas, induction over stanzas, fields, section entries and continuation lines), lines<->bytes (readline splitting inverts rendering), filter and ignore semantics + three-way differential check: real parsers / Lean line-machine model / independent stanza-based reference parser, through all compressions and the mmap path",
         text=("C09_prefix_exact (a line `name: ...` passes startswith(key+':') iff name = key, so prefix/extension field names are inert), "
               "C09_continuation_inert, C09_blank_flushes / C09_blank_skips, C09_final_flush, C09_filter_spec, C09_ignore_exact and "
               "C09_packages_refines / C09_packages_empty (for every sequence of well-formed stanzas - any field order, decoy and multi-line "
               "fields, blank separators, missing final newline - PackagesParser's line machine yields exactly the per-stanza specification) are proved; "
               "grammar-generated Packages/Sources indices (field order, multi-line fields, decoy fields, 1-3 separators, missing final "
               "newline, 1-4 checksum sections, filters, ignore_errors) are parsed by the real parsers, the Lean model and a reference "
-              "parser and the three results must be equal."),
-        note="PARTIAL: the whole-index refinement is proved for Packages only; for Sources (hash sections, file lines) it is checked three-way; decompression, mmap and readline are exercised, not modelled. Models the code after the F-C09a fix. Trusted: Lean kernel, model, harness reference parser.",
+              "parser and the three results must be equal. C09_sources_refines is the same refinement for Sources indices (Package, Directory, "
+              "the four checksum sections with their entries, any other fields incl. Checksums-<other>, section flag shown to be on exactly "
+              "inside the sections, every entry placed under the stanza's Directory: C09_sources_flush), C09_splitLines_render shows that "
+              "reading the byte stream line by line gives back the rendered lines (with or without final newline)."),
+        note="Proved for both index kinds down to the byte stream, for well-formed stanzas (explicit predicates Field.OK / SrcField.OK, shown satisfiable). Decompression and mmap are library code: exercised (every fourth generated index is above the mmap threshold), not modelled. A malformed-entry stream is compared real vs model only. Models the code after the F-C09a fix. Trusted: Lean kernel, model, harness reference parser.",
         design="6/C09"),
 })
 
 CLAIMED.update({
     "C07": dict(
-        technique="Lean 4 proof (every prefix of the swap is a legal state; transfers never write in place; leftovers of a dead run are removed and do not influence what is published; partial files are never taken for complete; stale lock) + crash-point sweep on the real tool: sandbox copied at mutation prefixes, C03 predicate on the copy, rerun from the copy compared with the uninterrupted run",
+        technique="Lean 4 proof (whole-run model: for EVERY prefix of a run's operation sequence the next good run yields exactly the uninterrupted tree; every prefix of the swap is a legal state; transfers never write in place; leftovers of a dead run are removed and do not influence what is published; partial files are never taken for complete; stale lock) + L2 correspondence of real runs with the whole-run model + crash-point sweep on the real tool: sandbox copied at mutation prefixes, C03 predicate on the copy, rerun from the copy compared with the uninterrupted run",
         text=("C07_crash_during_publish, C07_crash_during_transfers, C07_leftovers_ignored, C07_no_leftovers, C07_partial_not_unmodified, "
               "C07_partial_not_shortcut and C07_stale_lock are proved for all prior filesystems, staged file sets, queues and crash "
               "indices; real update runs are cut at stratified mutation prefixes, every swap rename/rmtree and at delivered chunks, and "
               "each crash copy must satisfy the live-tree predicate and, after a rerun (same or newer upstream), equal the uninterrupted "
-              "reference tree with no *.apt_mirror_* entry left."),
-        note="PARTIAL: 'rerun tree = uninterrupted tree' as one theorem over whole runs is not proved (it needs the C08 canonical-form theorem); it is checked from sampled crash points of real runs. Process death only (no fsync analysis). Wipe protection disabled (S4). Trusted: Lean kernel, model, harness tracer (crash point = before the k-th attempted mutation).",
+              "reference tree with no *.apt_mirror_* entry left. On Model/Mirror.lean (pool stage chunk by chunk, swap, clean as one operation "
+              "sequence) C07_crash_rerun_converges proves for every crash index k that the rerun's tree equals the uninterrupted run's "
+              "(paths, sizes, contents), C07_torso_not_accepted that a file being written is shorter than declared, C07_crash_invariants / "
+              "C07_crash_then_newer that the hypotheses survive the crash also for a rerun against a newer version; every real rerun is "
+              "replayed in that model from the crashed tree (bodies requested, files removed, final tree)."),
+        note="Whole-run convergence is a theorem for the pool/publish/clean part of a run (inputs: the needed lists the earlier stages computed). PARTIAL: interruptions inside the release/index stages (skel) are covered by the per-file theorems and the crash-point sweep only. Process death only (no fsync analysis). Wipe protection disabled (S4). Trusted: Lean kernel, model, harness tracer (crash point = before the k-th attempted mutation).",
         design="6/C07"),
     "C08": dict(
-        technique="Lean 4 proof of the per-file fixed-point facts (complete pool file never requested, unchanged metadata accepted without body, download sets the announced date on every path, immediately repeated request is 'unmodified', a changed size/date is fetched) + history sweep on the real tool against a first-ever mirror and a repeat run with transfer log",
+        technique="Lean 4 proof of the canonical form and idempotence of a whole run on Model/Mirror.lean (result = function of what the run needed, for any prior tree; repeated run = swap only) and of the per-file fixed-point facts (complete pool file never requested, unchanged metadata accepted without body, download sets the announced date on every path, immediately repeated request is 'unmodified', a changed size/date is fetched) + history sweep on the real tool against a first-ever mirror and a repeat run with transfer log",
         text=("C08_pool_no_transfer, C08_unchanged_no_body, C08_download_sets_date, C08_second_pass_unmodified, C08_changed_is_fetched proved "
               "for all filesystems and responses; histories V1..Vn with faulty, killed or missing runs in between are executed on the "
               "real tool and the final (path,size,sha1,mtime) listing must equal a first-ever mirror of Vn; mtimes must equal the "
-              "served Last-Modified; the repeat run must transfer no body and change no inode."),
-        note="PARTIAL: the whole-tree canonical-form theorem (tree after any history = fresh mirror) is not proved; it is checked on generated histories. Wipe protection disabled (S4), S3 worlds skipped. Trusted: Lean kernel, model, harness upstream simulator.",
+              "served Last-Modified; the repeat run must transfer no body and change no inode. C08_run_exact / C08_run_canonical / C08_run_content / "
+              "C08_run_idempotent / C08_transfer_only_if_absent are proved on the whole-run model for every prior tree and queue; every real "
+              "run that ends without error is replayed in it (pool queue and skip-clean as observed, tree found before the run) and "
+              "requested bodies, removed files and final tree must agree."),
+        note="The canonical-form theorem takes the needed lists (obtained metadata, pool queue) as inputs; that these are the same function of the upstream in both runs is C09 (proved) and C10 (partial) plus glue that is checked end to end. Modification times are per-file theorems. Wipe protection disabled (S4), S3 worlds skipped. Trusted: Lean kernel, model, harness upstream simulator.",
         design="6/C08"),
 })
 
